@@ -77,6 +77,7 @@ def check(run, tier, seed, replay=None, only=None):
     for s in range(2 if quick else 8):
         stages.append(("long-%d" % s, ["--mode", "long", "--budget", 1500 if quick else 6000, "--maxlen",
                                        20000 if quick else 100000, "--seed", seed * 100 + 80 + s], True))
+    stages.append(("huge-0", ["--mode", "huge", "--budget", 1 if quick else 3, "--seed", seed * 100 + 95], True))
     core.build_driver("stream_drv", "rel")
     for name, args, inter in stages:
         jobs.append(lambda name=name, args=args: stream_stage(run, name, args))
